@@ -115,9 +115,12 @@ func qDefs(idx int) []*qCol {
 				{Name: "age"},
 				{Name: "devices", Kind: qKind(client.NewSchemaKind(qDeviceRoot, true)), RelationName: qRel("device_user")},
 				{Name: "name"},
+				{Name: "floats"}, {Name: "ints"},
 			}},
 		Schema: client.SchemaDescription{Root: qUserRoot, VersionID: qUserRoot, Name: "User",
-			Fields: []client.SchemaFieldDescription{{Name: "_docID", Kind: client.FieldKind_DocID}, {Name: "age", Kind: num, Typ: lww}, {Name: "name", Kind: str, Typ: lww}}},
+			Fields: []client.SchemaFieldDescription{{Name: "_docID", Kind: client.FieldKind_DocID}, {Name: "age", Kind: num, Typ: lww}, {Name: "name", Kind: str, Typ: lww},
+				// (two inline arrays, as `floats: [Float!] ints: [Int!]` declares them; used by the aggregate jobs of C08)
+				{Name: "floats", Kind: client.FieldKind_FLOAT64_ARRAY, Typ: lww}, {Name: "ints", Kind: client.FieldKind_INT_ARRAY, Typ: lww}}},
 	}
 	device := client.CollectionDefinition{
 		Version: client.CollectionVersion{Name: "Device", VersionID: qDeviceRoot, CollectionID: qDeviceRoot, IsActive: true, IsMaterialized: true,
@@ -271,6 +274,8 @@ type qDevice struct {
 //	q=7  User(filter: {devices: {year: {_gt: c}}}) { name _count(devices: {}) }
 //	q=8  User(filter: {devices: {year: {_gt: c}}}, order: {age: ASC}) { name age }
 //	q=9  User { name devices(order: {year: ASC}) { model year } }         ordered children, no filter
+//	q=10 Device(filter: {year: {_gt: c}, owner: {age: {_gt: c}}}) { model }   own condition and a condition on the parent
+//	q=11 Device(order: {owner: {age: ASC}}) { model owner { age } }       children ordered by a field of their parent
 //
 // idx: bit 0 = secondary index on Device.year, bit 1 = secondary index on User.age
 func VerifH_C09_OneToMany() {
@@ -289,6 +294,18 @@ func VerifH_C09_OneToMany() {
 			f["owner_id"] = qUserIDs[devs[d].owner]
 		}
 		e.putDoc("Device", qDeviceIDs[d], f)
+	}
+	// conf class (known finding C09-order-through-relation-drops-parentless): 0 = every child has a parent,
+	// 1 = some child has none, 2 = unrestricted
+	orphan := false
+	for d := range devs {
+		orphan = orphan || devs[d].owner < 0
+	}
+	switch vConfInt("class") {
+	case 0:
+		vAssume(!orphan)
+	case 1:
+		vAssume(orphan)
 	}
 	c := qSmall("c") - 1
 	yearGt := map[string]any{"year": map[string]any{"_gt": c}}
@@ -326,6 +343,13 @@ func VerifH_C09_OneToMany() {
 			sel.Fields = append(sel.Fields, qField("age"))
 			sel.OrderBy = immutable.Some(request.OrderBy{Conditions: []request.OrderCondition{{Fields: []string{"age"}, Direction: request.ASC}}})
 		}
+	case 10:
+		sel = &request.Select{Field: request.Field{Name: "Device"}, ChildSelect: request.ChildSelect{Fields: []request.Selection{qField("model")}},
+			Filterable: request.Filterable{Filter: immutable.Some(request.Filter{Conditions: map[string]any{"year": map[string]any{"_gt": c}, "owner": map[string]any{"age": map[string]any{"_gt": c}}}})}}
+	case 11:
+		sel = &request.Select{Field: request.Field{Name: "Device"}, ChildSelect: request.ChildSelect{Fields: []request.Selection{
+			qField("model"), &request.Select{Field: request.Field{Name: "owner"}, ChildSelect: request.ChildSelect{Fields: []request.Selection{qField("age")}}}}},
+			Orderable: request.Orderable{OrderBy: immutable.Some(request.OrderBy{Conditions: []request.OrderCondition{{Fields: []string{"owner", "age"}, Direction: request.ASC}}})}}
 	default:
 		sel = &request.Select{Field: request.Field{Name: "Device"}, ChildSelect: request.ChildSelect{Fields: []request.Selection{qField("model")}},
 			Filterable: request.Filterable{Filter: immutable.Some(request.Filter{Conditions: map[string]any{"owner": map[string]any{"age": map[string]any{"_gt": c}}}})}}
@@ -420,11 +444,25 @@ func VerifH_C09_OneToMany() {
 				vAssert(seen[u] == 0, "parent-without-a-matching-child-does-not-appear")
 			}
 		}
-	case 1, 5:
+	case 1, 5, 10, 11:
 		wantRows := 0
 		for d := range devs {
-			if q == 1 || (devs[d].owner >= 0 && ages[devs[d].owner] > c) {
+			if q == 1 || q == 11 || (devs[d].owner >= 0 && ages[devs[d].owner] > c && (q == 5 || devs[d].year > c)) {
 				wantRows++
+			}
+		}
+		if q == 11 {
+			// in ascending order of the parent's age, children without a parent first
+			prev, havePrev := int64(0), false
+			for _, row := range res {
+				o, _ := row["owner"].(map[string]any)
+				if o == nil {
+					vAssert(!havePrev, "children-ordered-by-their-parents-field")
+					continue
+				}
+				a, _ := o["age"].(int64)
+				vAssert(!havePrev || prev <= a, "children-ordered-by-their-parents-field")
+				prev, havePrev = a, true
 			}
 		}
 		vAssert(len(res) == wantRows, "children-with-a-matching-parent-appear-once-each")
